@@ -37,6 +37,7 @@ Tol(chk, dt) ==
     [] chk = "grad_logexp" -> SqrtTol(dt)  \* autograd d Log(Exp(x) @ Y)/dx  vs  finite differences
     [] chk = "grad_jinvp_X" -> SqrtTol(dt) \* autograd left-perturbation Jacobian of Jinvp(X, p) w.r.t. X  vs  second differences
     [] chk = "grad_jinvp_p" -> SqrtTol(dt) \* autograd Jacobian of Jinvp(X, p) w.r.t. p  vs  Jl^-1(Log X) by finite differences
+    [] chk = "grad_batched" -> SqrtTol(dt) \* the Jacobian of an item evaluated inside a batch  vs  the same item evaluated alone
     [] chk = "grad_zero_slot" -> 0         \* the slot of a group gradient beyond the manifold dimension is exactly zero
     [] chk = "corr_gradient" -> 4096       \* C09: J'^T R' vs sum_i rho'(|R_i|^2) J_i^T R_i for the built-in kernels
     [] chk = "corr_ft_equal" -> 4096       \* C09: Triggs = FastTriggs where rho'' <= 0 or R_i = 0
